@@ -209,6 +209,46 @@ pub fn items(tier: Tier, id: &str) -> Vec<Item> {
             out.push(Item { cfgs: c.to_vec(), f32_too: false });
         }
     }
+    if id == "C10" || id == "C03" || id == "C06" || id == "C04" {
+        // custom interpolators of odd length (new_with_interpolator accepts any length): every
+        // place that halves the length has to agree on the rounding
+        let mut cfgs = Vec::new();
+        for kind in [Kind::SI, Kind::SO] {
+            for (l, interp) in [(9usize, Interp::Cubic), (15, Interp::Linear), (33, Interp::Nearest)] {
+                cfgs.push(Cfg::sinc(kind, 0.5, 2.0, 8, l, 2, interp, Kernel::Probe));
+                cfgs.push(Cfg::sinc(kind, 2.0, 2.0, 5, l, 4, interp, Kernel::Probe));
+            }
+        }
+        for c in cfgs.chunks(4) {
+            out.push(Item { cfgs: c.to_vec(), f32_too: false });
+        }
+        // chunks of thousands of frames with the probe kernel: a shortfall of a fraction of a
+        // frame per chunk in small configurations is several whole frames here
+        let mut cfgs = Vec::new();
+        for kind in [Kind::SI, Kind::SO] {
+            for ratio in [0.5, 1.2] {
+                cfgs.push(Cfg::sinc(kind, ratio, 1.25, 4096, 8, 2, Interp::Linear, Kernel::Probe));
+            }
+        }
+        for kind in [Kind::FI, Kind::FO] {
+            cfgs.push(Cfg::fast(kind, 0.5, 1.25, 4096, Degree::Linear));
+        }
+        for c in cfgs.chunks(2) {
+            out.push(Item { cfgs: c.to_vec(), f32_too: false });
+        }
+    }
+    if id == "C09" {
+        // internal buffers of several hundred kilobytes
+        let cfgs = vec![
+            Cfg::fast(Kind::FO, 1.0, 8.0, 4096, Degree::Cubic).with_channels(2),
+            Cfg::fast(Kind::FI, 0.5, 1.0, 32768, Degree::Linear),
+            Cfg::sinc(Kind::SO, 1.0, 8.0, 4096, 64, 16, Interp::Linear, Kernel::Dispatch),
+            Cfg::sinc(Kind::SI, 0.5, 1.0, 32768, 64, 16, Interp::Linear, Kernel::Dispatch),
+        ];
+        for c in cfgs.chunks(1) {
+            out.push(Item { cfgs: c.to_vec(), f32_too: false });
+        }
+    }
     if id == "C09" || ((id == "C10" || id == "C13") && tier == Tier::Thorough) {
         // a few large configurations: chunks of thousands of frames, eight channels, long filters,
         // FFT blocks of thousands of points (sizes that small configurations never reach)
@@ -634,7 +674,26 @@ impl Check for CtrlCheck {
                 let mut oj = outcome_json(cfg, &o, "twin");
                 oj["extra"] = json!({"worst_units": crate::twin::WORST.with(|w| w.replace(0.0)), "class": twin_class(cfg)});
                 merge(&mut acc, oj);
+                // the same exploration on a very quiet signal (peak 2^-26): FFT types, large
+                // chunks, and every eighth of the other configurations
+                if cfg.kind.is_fft() || cfg.chunk >= 1024 || (cfg.chunk + cfg.channels + cfg.filter_len()) % 8 == 0 {
+                    let mkq = || -> Result<Box<dyn crate::explore::Sys>, String> {
+                        Ok(Box::new(crate::twin::TwinSys::quiet(cfg)?))
+                    };
+                    let o = crate::explore::explore_sys(&spec, &mkq, jref).map_err(|e| format!("{}: {}", cfg.short(), e))?;
+                    let mut oj = outcome_json(cfg, &o, "twin-quiet");
+                    oj["extra"] = json!({"worst_units": crate::twin::WORST.with(|w| w.replace(0.0)), "class": twin_class(cfg)});
+                    merge(&mut acc, oj);
+                }
                 continue;
+            }
+            if self.id == "C03" && (cfg.kind.is_fft() || cfg.chunk == 8) {
+                // the same exploration on a signal with NaN samples in the last channel: sample
+                // values are inputs too, and a non-finite one must not make any call panic
+                let mut sp = spec.clone();
+                sp.signal = Signal::NoisePoisonLast(cfg.channels - 1);
+                let o = explore::<f64>(&sp, jref).map_err(|e| format!("{}: {}", cfg.short(), e))?;
+                merge(&mut acc, outcome_json(cfg, &o, "f64-nan"));
             }
             let mut o = explore::<f64>(&spec, jref).map_err(|e| format!("{}: {}", cfg.short(), e))?;
             if self.id == "C10" {
@@ -675,8 +734,12 @@ impl Check for CtrlCheck {
         let mut log = String::new();
         let mut bad = false;
         let make = || -> Result<Box<dyn crate::explore::Sys>, String> {
-            Ok(if self.id == "C17" {
+            Ok(if self.id == "C17" && ty == "twin-quiet" {
+                Box::new(crate::twin::TwinSys::quiet(&cfg)?)
+            } else if self.id == "C17" {
                 Box::new(crate::twin::TwinSys::new(&cfg)?)
+            } else if ty == "f64-nan" {
+                Box::new(Tracked::<f64>::new(&cfg, Signal::NoisePoisonLast(cfg.channels - 1), spec.props)?)
             } else if ty == "f32" {
                 Box::new(Tracked::<f32>::new(&cfg, spec.signal, spec.props)?)
             } else {
